@@ -45,6 +45,11 @@ ASSUMPTIONS = [
     "scaling is checked for c = 2**e only, so that equality is exact and no index can flip by rounding",
     "batch independence is checked on every row through a two-part split and on up to 4 rows through "
     "single-waveform calls (2-D and 3-D input alternate)",
+    "root-cause routing: a batch in which the reference finds a trough exactly k samples before the end calls the code "
+    "under kind C14.features.trough_at_T-k (known finding recovery_eq_T) and, when it crashes, is re-run without those "
+    "waveforms so that all other assertions still apply; on rows that the reference classifies as 'swapped, new peak "
+    "positive' the tip / half-peak / value comparisons are reported under C14.swap_pos_uninverted (known finding), "
+    "while peak, trough, ordering, recovery index and the three laws keep their own kinds on those rows",
 ]
 BUDGET = {"quick": 3000, "thorough": 90000}
 # one case costs 80-200 ms (3 + up to 7 calls of ~13 ms each): no shrinking in the quick tier (the driver keeps the
@@ -57,7 +62,6 @@ IDX_COLS = ["peak_time_idx", "trough_time_idx", "tip_time_idx", "half_peak_post_
 VAL_COLS = ["peak_val", "trough_val", "tip_val", "half_peak_post_val", "half_peak_pre_val", "recovery_val"]
 SLOPE_COLS = ["depolarisation_slope", "repolarisation_slope", "recovery_slope"]
 REQUIRED = ["peak_trace_idx"] + IDX_COLS + VAL_COLS + ["half_peak_duration"] + SLOPE_COLS
-SHAPES = ["mono", "bi", "tri", "weak", "plateau"]
 AMPS = [1.0, 37.5, 8e-5, 2.5e-4]
 
 KIND_FEATURES = "C14.features"
